@@ -20,7 +20,7 @@ EXPLANATION = (
     "unconditional top-level statement before the first parse.")
 NOT_DECIDED = ("the third-party parser's precedence/associativity and its printing of expressions (trusted dependency, "
                "outside /repo); fnmatch's own pattern semantics")
-TECHNIQUE = "static analysis: abstract evaluation of Matcher.evaluate over all fnmatchcase result vectors (decision table), abstract text with '@'-taint through the v2 builder, marker-token evaluation of the {config.tags} substitution, must-precede rule for the protocol selection"
+TECHNIQUE = "static analysis: abstract evaluation of Matcher.evaluate over all fnmatchcase result vectors (decision table), abstract text with '@'-taint through the v2 builder, marker-token evaluation of the {config.tags} substitution, must-precede rule for the protocol selection; static constant propagation of the string-level glue (the source interpreted on enumerated literal inputs, stdlib calls folded) against oracles written in the rule"
 
 
 def run(chk, ix, tier):
